@@ -49,6 +49,26 @@ pub struct MultiReceiver {
     listeners_id: u64,
 }
 
+#[cfg(feature = "verif")]
+impl MultiReceiver {
+    /// Verification hook: canonical text of the demultiplexing state (filter switch, filter
+    /// tables, allocated sessions), independent of hash-map iteration order
+    pub fn verif_state(&self) -> String {
+        let mut sessions: Vec<String> = self
+            .alc_receiver
+            .keys()
+            .map(|k| format!("{:?}/{}", k.endpoint, k.tsi))
+            .collect();
+        sessions.sort();
+        format!(
+            "filtering={} {} sessions={:?}",
+            self.enable_tsi_filtering,
+            self.tsifilter.verif_state(),
+            sessions
+        )
+    }
+}
+
 impl MultiReceiver {
     ///
     /// Creates a new `MultiReceiver` instance, which allows receiving multiple interlaced FLUTE sessions.
